@@ -18,7 +18,7 @@ from drivers import http_parse as drv
 
 OUT = tlc.OUT
 
-AS_IS_DEV = ["StripPyWs", "CapWholeBlock", "DroppedNotCounted", "UnboundedChunkLine", "UnboundedTrailers"]
+AS_IS_DEV = ["CapWholeBlock", "UnboundedChunkLine"]   # StripPyWs, DroppedNotCounted, UnboundedTrailers: fixed in /repo
 
 HREJECT = {"CLbad", "TEchunkedgzip", "TEchunked2", "TEunknown", "TEnontoken", "TEpyws", "ObsFold",
            "WsColon", "BadName", "NulVal", "NoColon"}
@@ -321,3 +321,252 @@ def replay(ctx, data):
 
 
 CHECKS = {"C01": c01, "C06": c06}
+
+
+# ---------------------------------------------------------------------------------------------
+# C12
+
+def eff_limits(line, fields, fsize):
+    """limits as documented: line 0..8190 (0 unlimited, larger clamps to 8190); fields 1..32768
+    (0 or larger clamps to 32768); field size positive or 0 = unlimited"""
+    return {"line": line if 0 <= line < 8190 else 8190,
+            "fields": fields if 0 < fields <= 32768 else 32768,
+            "fsize": fsize}
+
+
+def build_request(rllen, fields, body=b""):
+    """fields: list of (kind, linelen) with kind in plain|under|cl; -> bytes, request line of rllen bytes"""
+    base = b"GET / HTTP/1.1"
+    pad = rllen - len(base)
+    assert pad >= 0
+    rl = b"GET /" + b"a" * pad + b" HTTP/1.1"
+    lines = [rl]
+    for i, (kind, ln) in enumerate(fields):
+        name = {"plain": b"X-F%d" % i, "under": b"X_F%d" % i, "cl": b"Content-Length"}[kind]
+        if kind == "cl":
+            val = b"%d" % len(body)
+            val = b"0" * max(0, ln - len(name) - 2 - len(val)) + val
+        else:
+            val = b"v" * max(0, ln - len(name) - 2)
+        lines.append(name + b": " + val)
+    return b"\r\n".join(lines) + b"\r\n\r\n" + body
+
+
+def limit_record(ctx, cfgkw, rllen, fields, cuts_kind, rng, body=b""):
+    data = build_request(rllen, fields, body)
+    if cuts_kind == "whole":
+        cuts = []
+    elif cuts_kind == "bytes":
+        cuts = list(range(1, len(data)))
+    elif cuts_kind == "8k":
+        cuts = list(range(8192, len(data), 8192))
+    else:
+        cuts = rand_cuts(rng, len(data))
+    cfg = drv.make_cfg(**cfgkw)
+    obs = drv.run(data, cuts, cfg=cfg, mode="read", source="sock" if cuts_kind == "8k" else "iter")
+    lens = [len(x) for x in data.split(b"\r\n\r\n")[0].split(b"\r\n")]
+    ev = {"e": "limit", "cfg": eff_limits(cfgkw.get("limit_request_line", 4094),
+                                         cfgkw.get("limit_request_fields", 100),
+                                         cfgkw.get("limit_request_field_size", 8190)),
+          "rllen": lens[0], "nfields": len(lens) - 1, "maxfield": max(lens[1:] or [0]), "wellformed": True,
+          "handed": len(obs["out"]) >= 1}
+    meta = {"cfg": cfgkw, "rllen": lens[0], "fields": [[k, n] for k, n in fields][:8], "nfields": len(fields),
+            "cuts": cuts_kind, "exc": obs["exc"], "under": sum(1 for k, _ in fields if k == "under")}
+    return ev, meta
+
+
+class Endless:
+    """lazy byte source: prefix, then filler forever (cut at `cap` bytes), in `recv`-byte segments"""
+
+    def __init__(self, prefix, filler, recv, cap):
+        self.prefix, self.filler, self.seg, self.cap = prefix, filler, recv, cap
+        self.delivered = 0
+
+    def __iter__(self):
+        return self
+
+    def __next__(self):
+        if self.delivered >= len(self.prefix) + self.cap:
+            raise StopIteration
+        if self.delivered < len(self.prefix):
+            seg = self.prefix[self.delivered:self.delivered + self.seg]
+        else:
+            k = (self.delivered - len(self.prefix)) % len(self.filler)
+            rep = (self.filler * (self.seg // len(self.filler) + 2))[k:k + self.seg]
+            seg = rep
+        self.delivered += len(seg)
+        return seg
+
+
+def endless_record(cfgkw, phase, style, recv):
+    from gunicorn.http.parser import RequestParser
+    from gunicorn.http import errors as herr
+    eff = eff_limits(cfgkw.get("limit_request_line", 4094), cfgkw.get("limit_request_fields", 100),
+                     cfgkw.get("limit_request_field_size", 8190))
+    head_bound = eff["fields"] * ((eff["fsize"] or 8190) + 2) + 4
+    bound = max((eff["line"] or 8190) + 2, head_bound) + recv + 4
+    prefix = {"reqline": b"GET /", "headers": b"GET / HTTP/1.1\r\n",
+              "chunkline": b"POST / HTTP/1.1\r\nTransfer-Encoding: chunked\r\n\r\n1;",
+              "trailers": b"POST / HTTP/1.1\r\nTransfer-Encoding: chunked\r\n\r\n0\r\n"}[phase]
+    filler = b"a" if style == "long" else b"X-A: b\r\n"
+    if phase in ("headers", "trailers") and style == "long":
+        prefix += b"X-A: "
+    if phase in ("reqline", "chunkline"):
+        filler = b"a"
+    src = Endless(prefix, filler, recv, 4 * bound)
+    parser = RequestParser(drv.make_cfg(**cfgkw), src, ("127.0.0.1", 1))
+    refused, exc = False, None
+    try:
+        req = next(parser)
+        while req.body.read(8192):
+            pass
+    except herr.NoMoreData as e:
+        exc = type(e).__name__
+    except StopIteration:
+        exc = "StopIteration"
+    except herr.ParseException as e:
+        refused, exc = True, type(e).__name__
+    except Exception as e:   # noqa
+        refused, exc = True, "crash:" + type(e).__name__
+    fed = max(0, src.delivered - len(prefix))
+    ev = {"e": "endless", "cfg": eff, "ph": phase, "fed": fed, "recv": recv, "refused": refused}
+    meta = {"cfg": cfgkw, "phase": phase, "style": style, "recv": recv, "exc": exc, "fed": fed, "bound": bound}
+    return ev, meta
+
+
+def c12(ctx):
+    small = {"limit_line": 3, "limit_fields": 3, "fs": 5, "default_fs": 4}
+    jobs = [("limits_design", dict(family="limits", invariants=None, **small)),
+            ("endless_design", dict(family="endless", **small)),
+            ("limits_fs0", dict(family="limits", limit_line=3, limit_fields=3, fs=0, default_fs=4)),
+            ("limits_wide", dict(family="limits", maxrecv=16, limit_fields=2, fs=3, default_fs=4))]
+    for j in jobs:
+        j[1]["invariants"] = ["FramingExact", "RejectsListed", "CompleteOkDelivered", "FinDetermined",
+                              "InOrderNoLossNoDup", "OverLimitRejected", "BufferBounded"]
+    run_models(ctx, jobs)
+    ctx.coverage["exhaustive"] = True
+    expect_violation(ctx, "asis_dropped", "OverLimitRejected", family="limits", dev=["DroppedNotCounted"],
+                     limit_line=3, limit_fields=2, fs=5, default_fs=4)
+    expect_violation(ctx, "asis_chunkline", "BufferBounded", family="endless", dev=["UnboundedChunkLine"],
+                     invariants=["BufferBounded"], **small)
+    expect_violation(ctx, "asis_trailers", "BufferBounded", family="endless", dev=["UnboundedTrailers"],
+                     invariants=["BufferBounded"], **small)
+    rng = ctx.rng
+    traces, metas = [], []
+
+    def add(ev, meta):
+        traces.append({"ev": [ev]})
+        metas.append(meta)
+
+    lines = [0, 20, 64, 4094, 8190, 9000] if ctx.quick else [0, 15, 20, 64, 1000, 4094, 8189, 8190, 9000, 40000]
+    fieldss = [1, 3, 100] if ctx.quick else [1, 2, 3, 10, 100, 1000, 0]
+    fsizes = [0, 16, 64, 8190] if ctx.quick else [0, 12, 16, 64, 1000, 8190, 20000]
+    cutkinds = ["whole", "rand", "8k"] + ([] if ctx.quick else ["bytes"])
+    # request-line boundary
+    for L in lines:
+        eff = eff_limits(L, 100, 8190)["line"] or 5000
+        for d in (-4, -3, -2, -1, 0, 1, 2, 3, 4, 40):
+            rl = eff + d
+            if rl < 14:
+                continue
+            for ck in cutkinds:
+                if ck == "bytes" and rl > 300:
+                    continue
+                add(*limit_record(ctx, {"limit_request_line": L}, rl, [("plain", 12)], ck, rng))
+    # field-count boundary, with and without fields that the default header_map drops
+    for F in fieldss:
+        eff = eff_limits(4094, F, 8190)["fields"]
+        if eff > 2000:
+            continue
+        for d in (-2, -1, 0, 1, 2, 50):
+            n = eff + d
+            if n < 0:
+                continue
+            for mix in ("plain", "under", "mixed"):
+                kinds = {"plain": ["plain"] * n, "under": ["under"] * n,
+                         "mixed": [("under" if i % 2 else "plain") for i in range(n)]}[mix]
+                for ck in cutkinds[:2]:
+                    add(*limit_record(ctx, {"limit_request_fields": F}, 14, [(k, 14) for k in kinds], ck, rng))
+    # field-size boundary
+    for S in fsizes:
+        eff = S or 30000
+        for d in (-4, -3, -2, -1, 0, 1, 2, 3, 40):
+            ln = eff + d
+            if ln < 10:
+                continue
+            for ck in cutkinds:
+                if ck == "bytes" and ln > 300:
+                    continue
+                for pos in (0, 2):
+                    fields = [("plain", 12)] * 3
+                    fields[pos] = ("plain", ln)
+                    add(*limit_record(ctx, {"limit_request_field_size": S}, 14, fields, ck, rng))
+    # combined small limits, followed by a body and a pipelined request in the same reads
+    for (L, F, S) in [(64, 2, 32), (0, 1, 0), (20, 3, 16)] + ([] if ctx.quick else [(100, 5, 50), (0, 100, 0)]):
+        for nf in (1, F):
+            for ck in cutkinds[:3]:
+                body = b"b" * 300
+                fields = [("plain", min(S, 30) - 2 if S else 20)] * (nf - 1) + [("cl", 19)]
+                if S and 19 + 2 > S:
+                    continue
+                if L and 14 + 2 > L:
+                    continue
+                add(*limit_record(ctx, {"limit_request_line": L, "limit_request_fields": F,
+                                        "limit_request_field_size": S}, 14, fields, ck, rng, body=body))
+    # unlimited field size really unlimited?
+    for ck in ("whole", "8k"):
+        add(*limit_record(ctx, {"limit_request_field_size": 0}, 14, [("plain", 12), ("plain", 900000)], ck, rng))
+    # endless streams
+    cfgs = [{"limit_request_line": 64, "limit_request_fields": 4, "limit_request_field_size": 32},
+            {"limit_request_line": 200, "limit_request_fields": 10, "limit_request_field_size": 100}]
+    if not ctx.quick:
+        cfgs.append({})     # defaults
+    for kw in cfgs:
+        for phase in ("reqline", "headers", "chunkline", "trailers"):
+            for style in (("long", "many") if phase in ("headers", "trailers") else ("long",)):
+                for recv in ((1, 64, 8192) if kw else (8192,)):
+                    add(*endless_record(kw, phase, style, recv))
+    verdicts, stats = tlc.validate_batch("HttpLimitsTrace", "HttpLimitsTrace.cfg", traces, name="HttpLimits_C12")
+    ctx.add_traces(len(traces), stats)
+    for t, m, (v, step) in zip(traces, metas, verdicts):
+        if v == "ok":
+            continue
+        e = t["ev"][0]
+        if e["e"] == "limit":
+            which = []
+            c = e["cfg"]
+            if c["line"] and e["rllen"] > c["line"] + 2:
+                which.append("line")
+            if e["nfields"] > c["fields"]:
+                which.append("fields" + ("-dropped" if m["under"] else ""))
+            if c["fsize"] and e["maxfield"] > c["fsize"]:
+                which.append("fsize")
+            if v == "WithinLimitsRejected":
+                which = ["fsize=0" if c["fsize"] == 0 else "fsize>0", "line=0" if c["line"] == 0 else "line>0",
+                         str(m["exc"])]
+            sig = "C12/%s/%s" % (v, "+".join(which))
+        else:
+            sig = "C12/%s/phase=%s" % (v, e["ph"])
+        ctx.violation(sig, "%s: %s" % (v, json.dumps(m)[:300]), {"trace": t, "meta": m})
+    for t, m in list(zip(traces, metas))[:3] + list(zip(traces, metas))[-2:]:
+        ctx.sample({"event": t["ev"][0], "meta": {k: m[k] for k in m if k != "fields"}})
+    ctx.assumptions += ["limits as documented: line 0..8190 (0 unlimited), fields <= 32768, field size 0 = unlimited",
+                        "'exceeds'/'within' decided with a 2-byte margin for the line terminator",
+                        "held data is measured as bytes fed to the parser while it waits for a delimiter"]
+
+
+def replay_c12(ctx, data):
+    case = data["case"]
+    verdicts, _ = tlc.validate_batch("HttpLimitsTrace", "HttpLimitsTrace.cfg", [case["trace"]], name="HttpLimits_replay")
+    print("recorded event:", case["trace"], "meta:", case["meta"], "verdict:", verdicts[0])
+    return 1 if verdicts[0][0] != "ok" else 0
+
+
+CHECKS["C12"] = c12
+_replay_c01 = replay
+
+
+def replay(ctx, data):   # noqa: F811
+    if data["property"] == "C12":
+        return replay_c12(ctx, data)
+    return _replay_c01(ctx, data)
